@@ -35,7 +35,11 @@ func socket(domain, socketType, proto int, nonblock bool) (fd int, err error) {
 		return -1, os.NewSyscallError("socket", err)
 	}
 
-	return fd, syscall.SetNonblock(fd, nonblock)
+	if err = syscall.SetNonblock(fd, nonblock); err != nil {
+		_ = syscall.Close(fd)
+		return -1, err
+	}
+	return fd, nil
 }
 
 func CreateSocketTCP(
@@ -222,10 +226,15 @@ func ConnectTCP(
 	}
 
 	if err := connect(fd, remoteAddr, timeout, opts...); err != nil {
+		_ = syscall.Close(fd)
 		return -1, nil, nil, err
 	}
 
 	localAddr, err = SocketAddress(fd)
+	if err != nil {
+		_ = syscall.Close(fd)
+		return -1, nil, nil, err
+	}
 	return
 }
 
@@ -240,10 +249,15 @@ func ConnectUDP(
 	}
 
 	if err := connect(fd, remoteAddr, timeout, opts...); err != nil {
+		_ = syscall.Close(fd)
 		return -1, nil, nil, err
 	}
 
 	localAddr, err = SocketAddress(fd)
+	if err != nil {
+		_ = syscall.Close(fd)
+		return -1, nil, nil, err
+	}
 	return
 }
 
